@@ -3,3 +3,4 @@ import Pw.Props.C17
 import Pw.Props.C20
 import Pw.Props.C10
 import Pw.Props.C03
+import Pw.Props.C08
